@@ -126,17 +126,22 @@ def fillDay (st : St) (σ : List Nat → List Nat) (f : Fill) (d : Int) : Fill :
 def loop2 (st : St) (σ : List Nat → List Nat) (τ : List Int → List Int) : Fill :=
   (sortDays (τ st.days)).foldl (fillDay st σ) { tab := st.tab, last := fun _ => none }
 
-/-- one iteration of the loop of `calc_yearly_max_cost_day`; `m` is `max_cost_day_for_year` -/
-def yearStep (yearOf : Int → Int) (total : Int → Rat) (m : Int → Option Int) (d : Int) : Int → Option Int :=
-  match m (yearOf d) with
+/-- `max_cost_day_for_year` (a structure rather than a bare function so that each step of the
+    fold is evaluated when it is taken) -/
+structure YMap where
+  get : Int → Option Int
+
+/-- one iteration of the loop of `calc_yearly_max_cost_day` -/
+def yearStep (yearOf : Int → Int) (total : Int → Rat) (m : YMap) (d : Int) : YMap :=
+  match m.get (yearOf d) with
   | some old =>
-    if total old < total d then fun y => if y = yearOf d then some d else m y else m
-  | none => fun y => if y = yearOf d then some d else m y
+    if total old < total d then { get := fun y => if y = yearOf d then some d else m.get y } else m
+  | none => { get := fun y => if y = yearOf d then some d else m.get y }
 
 /-- `calc_yearly_max_cost_day`: `τ` is the order in which `keys()` yields the days, which are then
     sorted. -/
 def yearly (yearOf : Int → Int) (total : Int → Rat) (days : List Int) (τ : List Int → List Int) : Int → Option Int :=
-  (sortDays (τ days)).foldl (yearStep yearOf total) (fun _ => none)
+  ((sortDays (τ days)).foldl (yearStep yearOf total) { get := fun _ => none }).get
 
 /-- `Costs` -/
 structure Result where
